@@ -63,6 +63,9 @@ def replay(ops, rng, n):
                     s, base = rng.choice(['x', '/y?z', '../w', '#f', '//h2/p', '']), rng.choice(GOOD[:4] + ['a://h/p?q#f'])
                     if base == 'a:opaque':
                         base = GOOD[0]
+                elif y != 'ok' and rng.random() < 0.5:
+                    # a base that does not parse makes the call fail whatever the input is (absolute inputs included)
+                    s, base = rng.choice(GOOD + ['x', '/y']), rng.choice(BAD + ['/relative/base', 'not a url'])
                 ops.lines.append('UP %d %s %s' % (HMAP[x], hx(s), hx(base)))
             elif a == 'UCopy':
                 ops.lines.append('UC %d %d' % (HMAP[x], HMAP[y]))
